@@ -95,7 +95,7 @@ func TestVerifReplay(t *testing.T) {
 	// ---- character recipes
 	type cc struct{ length, allow, require, exclude string }
 	var ccs []cc
-	vals := []string{"", "digits", "lowercase", "uppercase,digits", "symbols", "digits, lowercase", "ambiguous", "lowercase,uppercase,digits,symbols", "digits,bogus"}
+	vals := []string{"", "digits", "lowercase", "uppercase,digits", "symbols", "digits, lowercase", "ambiguous", "lowercase,uppercase,digits,symbols", "digits,bogus", "digits,", " ", "dig", "DIGITS"}
 	for _, a := range vals {
 		for _, r := range []string{"", "digits", "uppercase,symbols", "ambiguous"} {
 			for _, x := range []string{"", "ambiguous", "digits", "lowercase,uppercase"} {
@@ -177,6 +177,8 @@ func TestVerifReplay(t *testing.T) {
 		"multi.txt": "alpha bravo\tcharlie\n\n  delta  echo\n",
 		"twin.txt":  "polish\nPolish\napple\n",
 		"empty.txt": " \n\t\n",
+		"case.txt":  "polish POLISH apple banana\n",
+		"cap.txt":   "Paris paris rome oslo\n",
 	}
 	for n, c := range files {
 		ioutil.WriteFile(filepath.Join(tmp, n), []byte(c), 0o644)
@@ -191,7 +193,7 @@ func TestVerifReplay(t *testing.T) {
 	capOf := map[string]spg.CapScheme{"none": spg.CSNone, "first": spg.CSFirst, "all": spg.CSAll, "random": spg.CSRandom, "one": spg.CSOne}
 	type wc struct{ list, file, size, sep, cap string }
 	var wcs []wc
-	for _, f := range []string{"plain.txt", "dup.txt", "crlf.txt", "multi.txt", "twin.txt"} {
+	for _, f := range []string{"plain.txt", "dup.txt", "crlf.txt", "multi.txt", "twin.txt", "case.txt", "cap.txt"} {
 		for _, sp := range []string{"", "space", "digit", "none", "underscore"} {
 			for _, cp := range []string{"", "first", "all", "one", "random"} {
 				wcs = append(wcs, wc{"", f, "3", sp, cp})
